@@ -27,7 +27,7 @@ def _opword():
     out = {}
     for lang, tab in OPTEXT.items():
         out[lang] = {op: tab.get(op, tab[None]) for op in
-                     ('=', '+', '-', '\\cdot', '\\times', '\\ne', '\\le', '/', '<')}
+                     ('=', '+', '-', '\\cdot', '\\times', '\\ne', '\\le', '/', '<', '\\geq')}
     return out
 
 
@@ -66,6 +66,13 @@ SECTS = [
     # delimiters: the full stop of \right. is no punctuation mark
     ('= \\left\\{ h \\right.', [('m', '=', True, '')]),
     ('\\left. k \\right|,', [('m', None, True, ',')]),
+    # label with cleveref's optional argument behind the punctuation mark
+    ('= p. \\label[equation]{eq:x}', [('m', '=', True, '.')]),
+    ('q, \\label[equation]{eq:y}', [('m', None, True, ',')]),
+    # operator macros that the document redefines keep their role
+    ('\\le r,', [('m', '\\le', True, ',')]),
+    ('\\cdot s', [('m', '\\cdot', True, '')]),
+    ('\\geq t.', [('m', '\\geq', True, '.')]),
 ]
 NSYM = 24        # the kinds from here on need amsmath: used in fixed documents only
 
@@ -267,6 +274,13 @@ OFFDOCS = {
     'delimiters': ('equation', None, [[0, 27]], 'en', False),
     'delimiters_rows': ('eqnarray', None, [[0, 27], [28]], 'de', False),
     'delimiters_simple': ('BRACKET', None, [[0, 27]], 'en', True),
+    'label_opt': ('align', 'amsmath', [[0, 29], [30]], 'en', False, '\\usepackage[poorman]{cleveref}\n'),
+    'label_opt_simple': ('equation', 'amsmath', [[30]], 'en', True, '\\usepackage[poorman]{cleveref}\n'),
+    'redefined_ops': ('align', 'amsmath', [[0, 31], [0, 32], [0, 33]], 'en', False,
+                      '\\renewcommand{\\le}{\\leqslant}\\renewcommand{\\cdot}{\\bullet}'
+                      '\\renewcommand{\\geq}{\\geqslant}\n'),
+    'redefined_ops_de': ('eqnarray', None, [[0, 31, 0], [0, 33, 0]], 'de', False,
+                         '\\renewcommand{\\le}{\\leqslant}\\renewcommand{\\geq}{\\geqslant}\n'),
     'gather3': ('gather', 'amsmath', [[6], [14], [16]], 'en', False),
 }
 
@@ -317,16 +331,17 @@ def build(item):
             return runm(w['a'], w['b']) if 0 <= w['a'] < E and 0 <= w['b'] < E else None
         return prop, concrete
     if item['h'] == 'off':
-        env, pack, rows, lang, simple = OFFDOCS[item['name']]
+        env, pack, rows, lang, simple = OFFDOCS[item['name']][:5]
+        pre = OFFDOCS[item['name']][5] if len(OFFDOCS[item['name']]) > 5 else ''
         eq = source(env, rows)
-        S = 'Before\n' + eq + '\nAfter'
+        S = pre + 'Before\n' + eq + '\nAfter'
         opts = {'lang': lang, 'seqs': simple}
         if pack:
             opts['pack'] = pack
 
         def orc(_S, d, e, doc, flat, diags):
             lab, plain, cm = flat[0]
-            return judge(doc, d + 7, d + 7 + len(eq), rows, lang, simple, plain, cm)
+            return judge(doc, d + len(pre) + 7, d + len(pre) + 7 + len(eq), rows, lang, simple, plain, cm)
         pre_ok, suf_ok = srcmodel.rebase_ok(S)
         return offrun.make(S, opts, False, orc, pre_ok, suf_ok)
     # body: a maths hole inside a section; no maths source may show
